@@ -12,8 +12,12 @@ import sys
 
 MARK_BEGIN = "/verif-c15-marker-begin"
 MARK_END = "/verif-c15-marker-end"
-TRACED = "mkdir,openat,write,close,rename,renameat,renameat2,newfstatat,stat,unlink,unlinkat,fsync"
-KILLABLE = ("mkdir", "openat", "write", "close", "rename", "renameat", "renameat2", "fsync")
+TRACED = "%file,%desc"       # every system call that takes a file name or a descriptor
+# calls that can change what the cache directory holds (descriptor calls count when the descriptor was opened for writing there)
+KILLABLE = ("mkdir", "mkdirat", "openat", "open", "creat", "write", "pwrite64", "writev", "sendfile", "copy_file_range", "ftruncate",
+            "truncate", "close", "rename", "renameat", "renameat2", "link", "linkat", "unlink", "unlinkat", "fsync", "fdatasync",
+            "fchmod", "fchmodat", "chmod", "utimensat", "fallocate")
+FD_CALLS = ("write", "pwrite64", "writev", "ftruncate", "close", "fsync", "fdatasync", "fchmod", "fallocate")
 LINE = re.compile(r"^(\d+)\s+(\w+)\((.*)$")
 
 
@@ -91,15 +95,22 @@ def calibrate(log, cachedir):
         if not inside:
             continue
         touches = cachedir in rest
-        if name == "openat" and touches:
+        if name in ("openat", "open", "creat") and touches:
             r = re.search(r"=\s*(\d+)\s*$", line)
-            if r:
+            writing = any(f in rest for f in ("O_WRONLY", "O_RDWR", "O_CREAT", "O_TRUNC", "O_APPEND")) or name == "creat"
+            if r and writing:
                 fds.add(r.group(1))
-        if name in ("write", "close", "fsync"):
+            touches = writing
+        if name in FD_CALLS:
             fd = rest.split(",")[0].split(")")[0].strip()
             touches = fd in fds
             if name == "close" and touches:
                 fds.discard(fd)
+        if name in ("sendfile", "copy_file_range"):
+            # (out_fd, in_fd, ...) / (fd_in, off_in, fd_out, ...)
+            args = [a.strip() for a in rest.split(",")]
+            out_fd = args[0] if name == "sendfile" else (args[2] if len(args) > 2 else "")
+            touches = out_fd in fds
         if touches and name in KILLABLE:
             out.append((name, counts[name], line.strip()[:160]))
     return out
